@@ -5,17 +5,16 @@
 #![allow(dead_code, unused)]
 use std::collections::BTreeMap;
 pub mod authorship {
-    pub mod authorship_log_serialization {
-        pub struct Metadata { pub prompts: std::collections::BTreeMap<String, crate::PromptRecord> }
-        pub struct AuthorshipLog { pub metadata: Metadata }
-    }
+    pub mod authorship_log_serialization { pub use crate::{AuthorshipLog, FileAttestation, AttestationEntry, AuthorshipMetadata}; }
     pub mod transcript {
-        #[derive(Clone)] pub struct Message;
-        pub struct AiTranscript { pub messages: Vec<Message> }
+        #[derive(Clone, Debug, PartialEq)] pub struct Message;
+        #[derive(Clone, Debug, PartialEq)] pub struct AiTranscript { pub messages: Vec<Message> }
     }
 }
-pub struct AgentId { pub tool: String, pub id: String, pub model: String }
-pub struct PromptRecord { pub agent_id: AgentId, pub messages: Vec<authorship::transcript::Message>, pub total_additions: u32, pub total_deletions: u32, pub accepted_lines: u32, pub overriden_lines: u32 }
+use std::collections::HashMap;
+#[derive(Clone, Debug, PartialEq)] pub struct AuthorshipMetadata { pub prompts: std::collections::BTreeMap<String, crate::PromptRecord> }
+#[derive(Clone, Debug, PartialEq)] pub struct AgentId { pub tool: String, pub id: String, pub model: String }
+#[derive(Clone, Debug, PartialEq)] pub struct PromptRecord { pub agent_id: AgentId, pub messages: Vec<authorship::transcript::Message>, pub total_additions: u32, pub total_deletions: u32, pub accepted_lines: u32, pub overriden_lines: u32 }
 fn calculate_waiting_time(_t: &authorship::transcript::AiTranscript) -> u64 { 0 }
 macro_rules! derive_default_shim { () => {} }
 include!("@ITEMS@");
@@ -39,7 +38,7 @@ fn chk(c: &mut Ctx, added: u32, deleted: u32, prompts: &[(String, String, u32, u
     let input = format!("{};{};{};{}", added, deleted, prompts.iter().map(|p| format!("{}:{}:{}:{}:{}", p.0, p.1, p.2, p.3, p.4)).collect::<Vec<_>>().join(" "), by_tool.iter().map(|t| format!("{}={}", t.0, t.1)).collect::<Vec<_>>().join(" "));
     let mut pm = BTreeMap::new();
     for (i, p) in prompts.iter().enumerate() { pm.insert(format!("h{}", i), PromptRecord { agent_id: AgentId { tool: p.0.clone(), id: "x".into(), model: p.1.clone() }, messages: vec![], total_additions: p.2, total_deletions: p.3, accepted_lines: 0, overriden_lines: p.4 }); }
-    let log = authorship::authorship_log_serialization::AuthorshipLog { metadata: authorship::authorship_log_serialization::Metadata { prompts: pm } };
+    let log = AuthorshipLog { attestations: vec![], metadata: AuthorshipMetadata { prompts: pm } };
     let bt: BTreeMap<String, u32> = by_tool.iter().cloned().collect();
     let accepted: u32 = bt.values().sum();
     match guarded(|| stats_from_authorship_log(Some(&log), added, deleted, accepted, &bt)) {
@@ -75,6 +74,65 @@ fn chk_overlap(c: &mut Ctx, r: (u32, Option<u32>), added: &[u32]) {
         Err(p) => c.fail("line_range_overlap_len", "safety", input, p, "no panic".into()),
     }
 }
+// accepted_lines_from_attestations.  input: A;merge;added "path=1,2,3|..";note "path>hash:S5,R1-3/hash2:..|..";prompts "hash=tool:model .."
+type NoteSpec = Vec<(String, Vec<(String, Vec<(u32, Option<u32>)>)>)>;
+fn chk_accepted(c: &mut Ctx, merge: bool, added: &[(String, Vec<u32>)], note: &NoteSpec, prompts: &[(String, String, String)]) {
+    if !added.iter().all(|(_, v)| v.windows(2).all(|w| w[0] < w[1])) { return; }
+    c.evaluated += 1;
+    let enc_r = |r: &(u32, Option<u32>)| match r.1 { None => format!("S{}", r.0), Some(e) => format!("R{}-{}", r.0, e) };
+    let input = format!("A;{};{};{};{}", merge as u8,
+        added.iter().map(|(p, v)| format!("{}={}", p, v.iter().map(|x| x.to_string()).collect::<Vec<_>>().join(","))).collect::<Vec<_>>().join("|"),
+        note.iter().map(|(p, es)| format!("{}>{}", p, es.iter().map(|(h, rs)| format!("{}:{}", h, rs.iter().map(enc_r).collect::<Vec<_>>().join(","))).collect::<Vec<_>>().join("/"))).collect::<Vec<_>>().join("|"),
+        prompts.iter().map(|(h, t, m)| format!("{}={}:{}", h, t, m)).collect::<Vec<_>>().join(" "));
+    let mut pm = BTreeMap::new();
+    for (h, t, m) in prompts { pm.insert(h.clone(), PromptRecord { agent_id: AgentId { tool: t.clone(), id: "x".into(), model: m.clone() }, messages: vec![], total_additions: 0, total_deletions: 0, accepted_lines: 0, overriden_lines: 0 }); }
+    let log = AuthorshipLog {
+        attestations: note.iter().map(|(p, es)| FileAttestation { file_path: p.clone(), entries: es.iter().map(|(h, rs)| AttestationEntry { hash: h.clone(), line_ranges: rs.iter().map(|r| match r.1 { None => LineRange::Single(r.0), Some(e) => LineRange::Range(r.0, e) }).collect() }).collect() }).collect(),
+        metadata: AuthorshipMetadata { prompts: pm },
+    };
+    let by_file: HashMap<String, Vec<u32>> = added.iter().cloned().collect();
+    // oracle, independent of the code: per file, per session, per range, the added lines inside the range
+    let mut want: u64 = 0; let mut want_tool: BTreeMap<String, u64> = BTreeMap::new(); let mut all_have_prompt = true;
+    if !merge {
+        for (p, es) in note { if let Some(v) = by_file.get(p) { for (h, rs) in es {
+            let n: u64 = rs.iter().map(|r| { let (lo, hi) = (r.0, r.1.unwrap_or(r.0)); v.iter().filter(|&&x| lo <= x && x <= hi).count() as u64 }).sum();
+            want += n;
+            match prompts.iter().find(|q| &q.0 == h) { Some(q) => { if n > 0 { *want_tool.entry(format!("{}::{}", q.1, q.2)).or_default() += n; } } None => { if n > 0 { all_have_prompt = false; } } }
+        } } }
+    }
+    match guarded(|| accepted_lines_from_attestations(Some(&log), &by_file, merge)) {
+        Ok((total, per_tool)) => {
+            let show = format!("accepted={} per-tool: {}", total, per_tool.iter().map(|(k, v)| format!("{}={}", k, v)).collect::<Vec<_>>().join(" "));
+            if total as u64 != want { c.fail("accepted_lines_from_attestations", "ensures#0", input.clone(), show.clone(), format!("accepted={} (lines the commit added that the note attributes to AI)", want)); }
+            let got_tool: BTreeMap<String, u64> = per_tool.iter().map(|(k, v)| (k.clone(), *v as u64)).collect();
+            if got_tool != want_tool { c.fail("accepted_lines_from_attestations", "per_tool_accepted", input.clone(), show.clone(), format!("per-tool: {:?}", want_tool)); }
+            if all_have_prompt && per_tool.values().map(|v| *v as u64).sum::<u64>() != total as u64 { c.fail("accepted_lines_from_attestations", "per_tool_sums_to_total", input, show, "per-tool accepted sums to the total".into()); }
+        }
+        Err(p) => c.fail("accepted_lines_from_attestations", "safety", input, p, "no panic".into()),
+    }
+    match guarded(|| accepted_lines_from_attestations(None, &by_file, merge)) {
+        Ok((total, per_tool)) => if total != 0 || !per_tool.is_empty() { c.fail("accepted_lines_from_attestations", "ensures#0", format!("A-none;{}", merge as u8), format!("accepted={}", total), "0 without a note".into()); },
+        Err(p) => c.fail("accepted_lines_from_attestations", "safety", format!("A-none;{}", merge as u8), p, "no panic".into()),
+    }
+}
+fn gen_accepted(g: &mut Rng, c: &mut Ctx) {
+    let paths = ["a.rs", "b c.rs", "d.rs"]; let hashes = ["h1", "h2", "h3"];
+    let nfiles = 1 + g.below(3) as usize;
+    let mut added: Vec<(String, Vec<u32>)> = vec![];
+    for i in 0..nfiles { if g.below(5) != 0 { let mut v = vec![]; for l in 1..=12u32 { if g.below(2) == 0 { v.push(l); } } added.push((paths[i].to_string(), v)); } }
+    let mut note: NoteSpec = vec![];
+    for i in 0..nfiles {
+        if g.below(6) == 0 { continue; }
+        // consecutive disjoint ranges handed out to 1..3 sessions; a session may end up with ranges that touch no added line
+        let ns = 1 + g.below(3) as usize; let mut es: Vec<(String, Vec<(u32, Option<u32>)>)> = (0..ns).map(|k| (hashes[k].to_string(), vec![])).collect();
+        let mut cur = 1u32;
+        while cur <= 12 { let len = g.below(4) as u32; let k = g.below(ns as u64 + 1) as usize; if k < ns { es[k].1.push(if len == 0 { (cur, None) } else { (cur, Some(cur + len)) }); } cur += len + 1 + g.below(2) as u32; }
+        note.push((paths[i].to_string(), es));
+    }
+    let mut prompts: Vec<(String, String, String)> = vec![];
+    for h in hashes { if g.below(8) != 0 { prompts.push((h.to_string(), if g.below(2) == 0 { "cursor" } else { "claude" }.to_string(), if g.below(2) == 0 { "m1" } else { "m2" }.to_string())); } }
+    chk_accepted(c, g.below(10) == 0, &added, &note, &prompts);
+}
 fn main() {
     std::panic::set_hook(Box::new(|_| {}));
     let a: Vec<String> = std::env::args().collect();
@@ -97,9 +155,19 @@ fn main() {
             let added = if round % 5 == 0 { acc.saturating_sub(g.below(2) as u32) } else { acc + g.below(6) as u32 };
             let by_v: Vec<(String, u32)> = by.into_iter().collect();
             chk(&mut c, added, g.below(5) as u32, &prompts, &by_v);
+            gen_accepted(&mut g, &mut c);
         }
     } else {
         let p: Vec<&str> = a[3].split(';').collect();
+        if p[0] == "A" {
+            let added: Vec<(String, Vec<u32>)> = p[2].split('|').filter(|t| !t.is_empty()).map(|t| { let i = t.rfind('=').unwrap(); (t[..i].to_string(), t[i + 1..].split(',').filter(|x| !x.is_empty()).map(|x| x.parse().unwrap()).collect()) }).collect();
+            let note: NoteSpec = p[3].split('|').filter(|t| !t.is_empty()).map(|t| { let i = t.find('>').unwrap(); (t[..i].to_string(), t[i + 1..].split('/').filter(|e| !e.is_empty()).map(|e| { let j = e.find(':').unwrap(); (e[..j].to_string(), e[j + 1..].split(',').filter(|r| !r.is_empty()).map(|r| if let Some(x) = r.strip_prefix('S') { (x.parse().unwrap(), None) } else { let q: Vec<&str> = r[1..].split('-').collect(); (q[0].parse().unwrap(), Some(q[1].parse().unwrap())) }).collect()) }).collect()) }).collect();
+            let prompts: Vec<(String, String, String)> = p.get(4).unwrap_or(&"").split_whitespace().map(|t| { let i = t.find('=').unwrap(); let q: Vec<&str> = t[i + 1..].split(':').collect(); (t[..i].to_string(), q[0].to_string(), q[1].to_string()) }).collect();
+            chk_accepted(&mut c, p[1] == "1", &added, &note, &prompts);
+            println!("DONE evaluated={}", c.evaluated);
+            return;
+        }
+        if p[0] == "A-none" { chk_accepted(&mut c, p[1] == "1", &[], &vec![], &[]); println!("DONE evaluated={}", c.evaluated); return; }
         if p[0] == "O" {
             let added: Vec<u32> = if p[3].is_empty() { vec![] } else { p[3].split(',').map(|x| x.parse().unwrap()).collect() };
             chk_overlap(&mut c, (p[1].parse().unwrap(), if p[2] == "-" { None } else { Some(p[2].parse().unwrap()) }), &added);
